@@ -77,7 +77,23 @@ func (rb *BaseIRI) ResolveReference(ref *ParsedIRI) *ParsedIRI {
 	return rb.parsed.ResolveReference(ref)
 }
 
+// RelativizeIRI returns a reference which resolves against the base to exactly v. It reports false when it knows of no
+// such reference.
 func (rb *BaseIRI) RelativizeIRI(v string) (string, bool) {
+	rel, ok := rb.relativizeIRI(v)
+	if !ok {
+		return "", false
+	}
+
+	resolved, err := rb.parsed.Parse(rel)
+	if err != nil || resolved.String() != v {
+		return "", false
+	}
+
+	return rel, true
+}
+
+func (rb *BaseIRI) relativizeIRI(v string) (string, bool) {
 	if len(v) > len(rb.original) {
 		if rb.fragmentIndex == -1 && v[len(rb.original)] == '#' {
 			return v[len(rb.original):], true
@@ -88,7 +104,7 @@ func (rb *BaseIRI) RelativizeIRI(v string) (string, bool) {
 
 	if rb.rootIndex == -1 {
 		return "", false
-	} else if len(v) < rb.rootIndex || rb.original[0:rb.rootIndex] != v[:rb.rootIndex] {
+	} else if len(v) < rb.rootIndex || len(rb.original) < rb.rootIndex || rb.original[0:rb.rootIndex] != v[:rb.rootIndex] {
 		return "", false
 	} else if rb.original == v {
 		return "", true
